@@ -33,6 +33,11 @@ type SchedArgs struct {
 	PauseAt int64       `json:"pauseAt"`
 	Pre     []SchedStep `json:"pre,omitempty"`  // before the schedule, no controller attached
 	Post    []SchedStep `json:"post,omitempty"` // after both parties have finished
+	// second hold: goroutines created by a function whose name contains AuxCreator are held at their AuxPauseAt-th
+	// lock operation (0: only counted); after X is held the driver waits AuxWaitMs for that to happen
+	AuxCreator string `json:"auxCreator,omitempty"`
+	AuxPauseAt int64  `json:"auxPauseAt,omitempty"`
+	AuxWaitMs  int    `json:"auxWaitMs,omitempty"`
 }
 
 type stepRes struct {
@@ -128,6 +133,7 @@ func schedRun(raw json.RawMessage) (interface{}, error) {
 	started := make(chan *vsync.Controller, 1)
 	go func() {
 		c := vsync.NewController(vsync.GID(), a.PauseAt)
+		c.AuxCreator, c.AuxPauseAt = a.AuxCreator, a.AuxPauseAt
 		vsync.Attach(c)
 		started <- c
 		xres = runSteps(a.X)
@@ -147,6 +153,72 @@ func schedRun(raw json.RawMessage) (interface{}, error) {
 	case <-xdone:
 	}
 	yBlocked, yStalled := false, false
+	if paused && a.AuxCreator != "" {
+		var auxOnce sync.Once
+		resumeAux := func() { auxOnce.Do(func() { close(c.AuxResume) }) }
+		defer resumeAux()
+		auxPaused := false
+		select {
+		case <-c.AuxPaused:
+			auxPaused = true
+		case <-time.After(time.Duration(a.AuxWaitMs) * time.Millisecond):
+		}
+		ydone := make(chan struct{})
+		go func() {
+			yres = runSteps(a.Y)
+			close(ydone)
+		}()
+		yFinished := false
+		select {
+		case <-ydone:
+			yFinished = true
+		case <-c.YBlocked:
+			yBlocked = true
+		case <-time.After(6 * time.Second):
+			yStalled = true
+		}
+		resumeAux()
+		if !yFinished {
+			select {
+			case <-ydone:
+				yFinished = true
+			case <-time.After(3 * time.Second):
+			}
+		}
+		resume()
+		xFinished := false
+		select {
+		case <-xdone:
+			xFinished = true
+		case <-time.After(25 * time.Second):
+		}
+		if !yFinished {
+			select {
+			case <-ydone:
+				yFinished = true
+			case <-time.After(10 * time.Second):
+			}
+		}
+		vsync.Detach()
+		out["auxPaused"] = auxPaused
+		out["auxPausedAt"] = c.AuxPausedL
+		out["auxPoints"] = c.AuxCount()
+		out["auxLabels"] = c.AuxLabels
+		out["xHung"] = !xFinished
+		out["yHung"] = !yFinished
+		out["pre"] = preres
+		if xFinished && yFinished {
+			out["post"] = runSteps(a.Post)
+			out["x"] = xres
+			out["y"] = yres
+		}
+		out["points"] = c.Count()
+		out["paused"] = paused
+		out["pausedAt"] = c.PausedL
+		out["yBlocked"] = yBlocked
+		out["yStalled"] = yStalled
+		return out, nil
+	}
 	if paused {
 		ydone := make(chan struct{})
 		go func() {
